@@ -6,6 +6,7 @@ package main
 import (
 	"encoding/json"
 	"fmt"
+	"math"
 	"math/big"
 	"os"
 	"sort"
@@ -34,12 +35,28 @@ type param struct {
 var selName = []string{"minindex", "minnumber", "maxvalueage", "minpriority"}
 
 // pool builds coinset.SimpleCoin values backed by real transactions: coin id i spends outpoint
-// (zero hash, i), has (i%3)+1 outputs and is the output with index i%3.
+// (zero hash, i) and is the output with index i%3 of a transaction with (i%3)+1+(i/3)%3 outputs
+// (so it is the first, a middle or the last output); the other outputs carry other, non-zero
+// values.  The outpoint each coin stands for is recorded here, computed from the wire
+// transaction and not through the SimpleCoin accessors under test.
 type pool struct {
-	m map[[3]int64]*coinset.SimpleCoin
+	m  map[[3]int64]*coinset.SimpleCoin
+	op map[*coinset.SimpleCoin]wire.OutPoint
 }
 
-func newPool() *pool { return &pool{m: map[[3]int64]*coinset.SimpleCoin{}} }
+func newPool() *pool {
+	return &pool{m: map[[3]int64]*coinset.SimpleCoin{}, op: map[*coinset.SimpleCoin]wire.OutPoint{}}
+}
+
+// outpoint: the (hash, index) a coin of this pool must be spent by
+func (p *pool) outpoint(c coinset.Coin) (wire.OutPoint, bool) {
+	sc, ok := c.(*coinset.SimpleCoin)
+	if !ok {
+		return wire.OutPoint{}, false
+	}
+	o, ok := p.op[sc]
+	return o, ok
+}
 
 func (p *pool) coin(id int, t tcoin) *coinset.SimpleCoin {
 	k := [3]int64{int64(id), t.V, t.C}
@@ -48,8 +65,8 @@ func (p *pool) coin(id int, t tcoin) *coinset.SimpleCoin {
 	}
 	tx := wire.NewMsgTx(1)
 	tx.AddTxIn(wire.NewTxIn(wire.NewOutPoint(&chainhash.Hash{}, uint32(id)), nil))
-	for j := 0; j <= id%3; j++ {
-		v := int64(0)
+	for j := 0; j <= id%3+(id/3)%3; j++ {
+		v := int64(1000003 + 17*j)
 		if j == id%3 {
 			v = t.V
 		}
@@ -57,6 +74,7 @@ func (p *pool) coin(id int, t tcoin) *coinset.SimpleCoin {
 	}
 	c := &coinset.SimpleCoin{Tx: bchutil.NewTx(tx), TxIndex: uint32(id % 3), TxNumConfs: t.C}
 	p.m[k] = c
+	p.op[c] = wire.OutPoint{Hash: tx.TxHash(), Index: uint32(id % 3)}
 	return c
 }
 
@@ -570,6 +588,9 @@ func randParam(r *vh.RNG, desc []tcoin, mode int) param {
 		}
 	}
 	p := param{MaxIn: r.Intn(len(desc)+2) - r.Intn(2)*r.Intn(2)}
+	if r.Intn(16) == 0 { // "no limit" and nonsense limits
+		p.MaxIn = vh.Pick(r, []int{math.MaxInt64, math.MaxInt32, 1 << 32, 255, 256, math.MinInt64, -2})
+	}
 	if mode >= 4 {
 		p.Tgt = int64(r.U64()) >> uint(r.Intn(50))
 		p.MinChange = int64(r.U64()) >> uint(r.Intn(60))
@@ -594,6 +615,104 @@ func randParam(r *vh.RNG, desc []tcoin, mode int) param {
 	if r.Intn(15) == 0 {
 		p.MinAvg = -p.MinAvg
 	}
+	return p
+}
+
+// ---------- boundary-derived parameters ----------
+// The thresholds the selectors compare against are taken from the coins themselves: the target is
+// the exact value sum of a sub-list (or one off, or that sum minus the minimum change), the minimum
+// change the value of a coin or the gap between two sub-list sums, the required average the exact
+// (floored) average value-age of a sub-list, or the value-age of one coin, or one more / one less.
+// In the "large" regimes the value-ages lie between 2^53 and 2^57 (still far from any int64
+// overflow), where only exact integer arithmetic tells total/count from the required average.
+func bdDesc(r *vh.RNG, n, regime int) []tcoin {
+	desc := make([]tcoin, n)
+	for i := range desc {
+		switch regime {
+		case 0: // tiny, many ties
+			desc[i] = tcoin{vh.Pick(r, []int64{0, 1, 2, 3, 5}), vh.Pick(r, []int64{0, 1, 2, 3})}
+		case 1: // medium
+			desc[i] = tcoin{int64(1 + r.Intn(60)), int64(r.Intn(9))}
+		case 2: // large, odd digits everywhere: value < 2^48, confirmations < 2^9
+			desc[i] = tcoin{int64(r.U64()>>16) | 1, int64(1 + r.Intn(511))}
+		default: // large with close value-ages: a common base plus small differences
+			desc[i] = tcoin{int64(1)<<47 + int64(r.Intn(1000)), int64(256 + r.Intn(3))}
+		}
+	}
+	return desc
+}
+
+func bdParam(r *vh.RNG, desc []tcoin) param {
+	n := len(desc)
+	subset := func() []int {
+		k := 1 + r.Intn(4)
+		if k > n {
+			k = n
+		}
+		perm := make([]int, n)
+		for i := range perm {
+			perm[i] = i
+		}
+		for i := 0; i < k; i++ {
+			j := i + r.Intn(n-i)
+			perm[i], perm[j] = perm[j], perm[i]
+		}
+		return perm[:k]
+	}
+	sums := func(ix []int) (v, a int64) {
+		for _, i := range ix {
+			v += desc[i].V
+			a += desc[i].V * desc[i].C
+		}
+		return
+	}
+	sa := subset()
+	st := sa
+	switch r.Intn(4) {
+	case 0:
+		st = sa[:1+r.Intn(len(sa))] // the target is met by a part of the sub-list the average is taken over
+	case 1:
+		st = subset()
+	}
+	tv, _ := sums(st)
+	_, aa := sums(sa)
+	var p param
+	switch r.Intn(6) {
+	case 0:
+		p.MinChange = 0
+	case 1:
+		p.MinChange = 1
+	case 2:
+		p.MinChange = desc[r.Intn(n)].V
+	case 3:
+		p.MinChange = desc[r.Intn(n)].V + 1
+	case 4:
+		ov, _ := sums(subset())
+		if ov > tv {
+			p.MinChange = ov - tv
+		} else {
+			p.MinChange = tv - ov
+		}
+	default:
+		p.MinChange = int64(r.Intn(4))
+	}
+	p.Tgt = tv + vh.Pick(r, []int64{0, 0, 0, -1, 1, -p.MinChange, -p.MinChange - 1, -p.MinChange + 1})
+	if p.Tgt < 0 {
+		p.Tgt = 0
+	}
+	switch r.Intn(5) {
+	case 0, 1, 2:
+		p.MinAvg = aa/int64(len(sa)) + vh.Pick(r, []int64{0, 0, 1, 1, -1, 2})
+	case 3:
+		i := r.Intn(n)
+		p.MinAvg = desc[i].V*desc[i].C + vh.Pick(r, []int64{0, 1, -1})
+	default:
+		p.MinAvg = (aa + int64(len(sa)) - 1) / int64(len(sa))
+	}
+	if p.MinAvg < 0 {
+		p.MinAvg = 0
+	}
+	p.MaxIn = vh.Pick(r, []int{len(sa), len(sa), len(st), len(sa) - 1, len(sa) + 1, n, n + 1})
 	return p
 }
 
@@ -642,8 +761,31 @@ func history(pl *pool, init []tcoin, extra []tcoin, ops []hop, corr bool) {
 			bad("totalvalueage", fmt.Sprintf("TotalValueAge() = %d, sum over contents %d", set.TotalValueAge(), tva), step)
 		}
 	}
+	// a snapshot returned by an earlier Coins() call that the caller kept: it must keep showing
+	// the contents of the moment it was taken, whatever happens to the set afterwards
+	var held []coinset.Coin
+	var heldIDs []int
+	var heldStep int
+	snapshot := func(step int) {
+		if held == nil {
+			return
+		}
+		same := len(held) == len(heldIDs)
+		for i := 0; same && i < len(heldIDs); i++ {
+			same = idOf(held[i]) == heldIDs[i]
+		}
+		if !same {
+			ids := []int{}
+			for _, c := range held {
+				ids = append(ids, idOf(c))
+			}
+			bad("snapshot", fmt.Sprintf("the slice Coins() returned at step %d listed ids %v; after later operations on the set the same slice lists %v", heldStep, heldIDs, ids), step)
+			held = nil
+		}
+	}
 	contents := func(step int) {
 		got := set.Coins()
+		snapshot(step)
 		same := len(got) == len(ref)
 		for i := 0; same && i < len(ref); i++ {
 			same = idOf(got[i]) == ref[i]
@@ -655,9 +797,15 @@ func history(pl *pool, init []tcoin, extra []tcoin, ops []hop, corr bool) {
 			}
 			bad("contents", fmt.Sprintf("Coins() lists ids %v, the pushed-minus-removed sequence is %v (Num() = %d)", ids, ref, set.Num()), step)
 		}
-		// the caller owns the returned slice: scribbling on it must not change the set
-		for i := range got {
-			got[i] = nil
+		if step%2 == 0 {
+			// the caller owns the returned slice: scribbling on it must not change the set
+			for i := range got {
+				got[i] = nil
+			}
+			held = nil
+		} else if len(got) > 0 {
+			held, heldIDs, heldStep = got, append([]int(nil), ref...), step
+			rep.Histogram["snapshot_held"]++
 		}
 	}
 	tx := func(step int) {
@@ -668,8 +816,10 @@ func history(pl *pool, init []tcoin, extra []tcoin, ops []hop, corr bool) {
 			why = fmt.Sprintf("%d inputs for %d coins", len(t.TxIn), len(ref))
 		}
 		for i, in := range t.TxIn {
-			if i < len(ref) && (in.PreviousOutPoint.Hash != *cs[ref[i]].Hash() || in.PreviousOutPoint.Index != cs[ref[i]].Index()) {
-				why = fmt.Sprintf("input %d does not spend the outpoint of coin %d of the set", i, i)
+			if i < len(ref) {
+				if want, ok := pl.outpoint(cs[ref[i]]); !ok || in.PreviousOutPoint != want {
+					why = fmt.Sprintf("input %d does not spend the outpoint of coin %d of the set", i, i)
+				}
 			}
 			if in.SignatureScript != nil || in.Sequence != wire.MaxTxInSequenceNum {
 				why = "input with a signature script or a non-final sequence"
@@ -682,6 +832,7 @@ func history(pl *pool, init []tcoin, extra []tcoin, ops []hop, corr bool) {
 			rep.Violate("C19:tx:spends_exactly", "NewMsgTxWithInputCoins: "+why, map[string]interface{}{"family": "history", "init_value_confs": init, "pushable_value_confs": extra, "ops": ops, "failing_step": step, "set_contents_ids": append([]int(nil), ref...)})
 		}
 		rep.Histogram["tx"]++
+		snapshot(step)
 	}
 	sums(-1)
 	obs := make([]string, 0, len(ops))
@@ -743,6 +894,7 @@ func history(pl *pool, init []tcoin, extra []tcoin, ops []hop, corr bool) {
 	contents(len(ops))
 	tx(len(ops))
 	sums(len(ops))
+	snapshot(len(ops) + 1)
 	rep.Count("history", fmt.Sprint(init, extra, ops), nmut > 0)
 	if corr {
 		final := make([]int, 0)
@@ -763,7 +915,7 @@ func history(pl *pool, init []tcoin, extra []tcoin, ops []hop, corr bool) {
 		for i, in := range t.TxIn {
 			outs[i] = -1
 			for j, c := range cs {
-				if in.PreviousOutPoint.Hash == *c.Hash() && in.PreviousOutPoint.Index == c.Index() {
+				if want, ok := pl.outpoint(c); ok && in.PreviousOutPoint == want {
 					outs[i] = j
 				}
 			}
@@ -947,6 +1099,47 @@ func main() {
 		}
 		if i < 3 {
 			rep.Sample(replayOf(kind, p, desc, o, ""), 6)
+		}
+	}
+	// 3b. boundary-derived parameters (monitors + correspondence): targets, minimum changes and
+	// required averages that are exact sums / averages of sub-lists of the offered coins, also with
+	// value-ages beyond 2^53
+	r = rng.Fork("boundary")
+	nb := cfg.Scale(900, 6000)
+	if cfg.Search {
+		nb = 40000
+	}
+	for i := 0; i < nb; i++ {
+		regime := []int{0, 1, 2, 3, 2, 3}[i%6]
+		n := 2 + r.Intn(5)
+		if i%9 == 0 {
+			n = 7 + r.Intn(6)
+		}
+		desc := bdDesc(r, n, regime)
+		p := bdParam(r, desc)
+		kind := i % 4
+		if i%2 == 0 {
+			kind = 3
+		}
+		corr := !cfg.Search && (cfg.Thorough() || i%3 != 1)
+		o := one(pl, kind, p, desc, false, corr, &vs)
+		rep.Count(selName[kind], fmt.Sprint("b", kind, p, desc), p.MaxIn >= 1)
+		fam := "boundary_" + []string{"tiny", "medium", "large", "large_close"}[regime]
+		rep.Histogram[fam]++
+		if o.Ok {
+			rep.Histogram[selName[kind]+"_ok"]++
+			rep.Histogram[fam+"_ok"]++
+			if kind == 3 {
+				b := branchOf(p, desc, o)
+				rep.Histogram["minpriority_branch_"+b]++
+				rep.Histogram[fam+"_minpriority_"+b]++
+				if len(o.IDs) > 1 {
+					rep.Histogram[fam+"_minpriority_"+b+"_multi"]++
+				}
+			}
+		}
+		if !inDomain(p, desc, false) {
+			rep.Histogram[fam+"_outside_domain"]++
 		}
 	}
 	report(vs)
